@@ -329,6 +329,10 @@ fn oracle_case(src: &str, ctx: &ExecContext) -> serde_json::Value {
             });
         }
     }
+    // verdicts so far, so that the supervisor knows them when a compile entry point kills the process
+    for e in st.iter().skip(1) {
+        mark(&format!("verdict {} {}", e[0].as_str().unwrap_or("?"), e[1].as_str().unwrap_or("?")));
+    }
     // 4, 5 the compile entry points of the CLI
     mark("emit_bytecode");
     st.push(stage_result("emit_bytecode", src, guarded(|| compiler.emit_bytecode(src))));
